@@ -528,7 +528,7 @@ func C01(c *ev.Ctx) {
 		"the Go toolchain is the semantics of the source; entry points are closed functions whose result gathers the computed values",
 		"generated programs are in the supported subset (each production cites docs/writing-goose.md or a shipped example) and never panic; known-bad shapes (known_findings.json) are masked in exploration and re-run as probes",
 		"Word.tla agrees with Go arithmetic (checked by selftest-word in the thorough tier)")
-	if !glCalibration(c, false) {
+	if !glCalibration(c, !c.Quick()) { // thorough: including the write-ahead log example on the disk FFI
 		return
 	}
 	if !c.Quick() {
